@@ -54,7 +54,7 @@ def install_common(E):
 
     def s_bytes(I, self_obj, args, kwargs):
         # contract taken from the property: the bytes of the payload are the UTF-8 of its literal text
-        t = M.text_of(self_obj.fields["s"].t)
+        t = M.text_of(ops.seq_term(I, self_obj.fields["s"], M.PART))
         r = M.utf8(t)
         I.ctx.assume(z3.And(blen(r) >= z3.Length(t), blen(r) <= 4 * z3.Length(t)))
         return Sym(r, "bytes")
@@ -194,6 +194,44 @@ class B64Modify(Contract):
 
 
 @register
+class SigmaStringBytes(Contract):
+    """bytes(value) is the UTF-8 encoding of the literal text (unescaped: a literal '*' is one byte 0x2a)"""
+    id = "C04.SigmaString.__bytes__"
+    target = "sigma.types:SigmaString.__bytes__"
+    props = ("C04",)
+    assumed = ["str.encode() is UTF-8"]
+
+    def setup(self, E):
+        from . import c05
+        M.install_part_adt(E)
+        c05.install_to_plain_summary(E)
+        E.externals["str.encode"] = lambda I, args, kwargs: Sym(M.utf8(mk_str(args[0])), "bytes") if args[1] == "utf-8" else (_ for _ in ()).throw(OutsideSubset("codec"))
+
+    def args(self, I):
+        return {"self": M.mk_sigma_string(I, "self"), "args": []}
+
+    def post(self, I, inp, r):
+        I.ctx.require(ops.kind_of(r) == "bytes", "returns bytes")
+        I.ctx.require(mk_bytes(r, I) == M.utf8(M.text_of(inp["self"].fields["s"].t)), "result == utf8(literal text of the parts)")
+
+    def frame_ok(self, I, inp, obj, name):
+        return False
+
+    def model_terms(self, inp):
+        return {"parts": inp["self"].fields["s"].t}
+
+    def candidates(self):
+        return ({"parts": p} for p in M.part_lists(max_len=2))
+
+    def replay(self, values):
+        from sigma.types import SigmaString
+        s = M.native_sigma_string(values.get("parts", []))
+        want = M.native_text(s.s).encode()
+        got = bytes(s)
+        return None if got == want else f"parts {s.s!r}: bytes() gave {got!r}, the literal text is {want!r}"
+
+
+@register
 class B64WindowLemma(Lemma):
     """The window [lo_i, hi_i) of the contract is the property's window: maximal set of sextets inside the payload bits,
     and aligned occurrences in any containing byte string have the same sextets (RFC 4648 sextet/bit correspondence)."""
@@ -216,3 +254,224 @@ class B64WindowLemma(Lemma):
                   z3.And(6 * (k + sh) + u == (6 * k + u) + 8 * (a - i), sh >= 0)))
         g.append(("every alignment is covered by one of the three shifts", [a >= 0], z3.Or(*[z3.And(a >= j, (a - j) % 3 == 0) for j in range(3)]) ))
         return g
+
+
+# ----------------------------------------------------------------------------------------------- wide / utf16 modifiers
+def u16(variant, t):
+    return z3.Function(f"utf16{variant}.encode", z3.StringSort(), bytes_sort())(t)
+
+
+def dec8(b):
+    return z3.Function("utf8.decode", bytes_sort(), z3.StringSort())(b)
+
+
+def dec8_ok(b):
+    return z3.Function("utf8.decodable", bytes_sort(), z3.BoolSort())(b)
+
+
+def wpart(variant, p):
+    P = M.PartSort()
+    return z3.If(P.is_PStr(p), P.PStr(dec8(u16(variant, P.str(p)))), p)
+
+
+def mapw(variant, xs):
+    return z3.Function(f"map_wide_{variant}", M.parts_sort(), M.parts_sort())(xs)
+
+
+def mapw_nil(variant):
+    return mapw(variant, z3.Empty(M.parts_sort())) == z3.Empty(M.parts_sort())
+
+
+def mapw_cons(variant, x, tail):
+    return mapw(variant, z3.Concat(z3.Unit(x), tail)) == z3.Concat(z3.Unit(wpart(variant, x)), mapw(variant, tail))
+
+
+def install_codecs(E):
+    def x_encode(I, args, kwargs):
+        s, enc = args
+        enc = {"utf-16le": "le", "utf-16be": "be"}.get(enc)
+        if enc is None:
+            raise OutsideSubset(f"codec {args[1]!r}")
+        return Sym(u16(enc, mk_str(s)), "bytes")
+    E.externals["str.encode"] = x_encode
+
+    def x_decode(I, args, kwargs):
+        b, enc = args
+        if enc != "utf-8":
+            raise OutsideSubset(f"codec {enc!r}")
+        bt = mk_bytes(b, I)
+        # assumed strict codec: either UnicodeDecodeError, or a string whose UTF-8 encoding is the input
+        if not I.ctx.branch(dec8_ok(bt)):
+            from pyvc.interp import PyRaise
+            raise PyRaise(ExcValue("UnicodeDecodeError"))
+        r = dec8(bt)
+        I.ctx.assume(M.utf8(r) == bt)
+        return Sym(r, "str")
+    E.externals["bytes.decode"] = x_decode
+
+
+class WideLoop(LoopSpec):
+    def __init__(self, variant, prefix=None):
+        self.variant, self.prefix = variant, prefix
+        self.modifies = {"r": ("seq", M.PART)}
+
+    def _r(self, I, env):
+        return ops.seq_term(I, env["r"], M.PART)
+
+    def inv(self, I, env, done, rest, total):
+        r = self._r(I, env)
+        pre = z3.Empty(M.parts_sort()) if self.prefix is None else z3.Unit(M.PartSort().PStr(z3.StringVal(self.prefix)))
+        return [("prefix ++ map(widen, done) == r", z3.Concat(pre, mapw(self.variant, total)) == z3.Concat(r, mapw(self.variant, rest)))]
+
+    def hints(self, I, env, phase, x, done, rest2, total):
+        if phase == "pre":
+            return [mapw_cons(self.variant, x, rest2)]
+        if phase == "exit":
+            return [mapw_nil(self.variant)]
+        return []
+
+
+class _WideBase(Contract):
+    props = ("C04",)
+    variant, prefix, clsname = "le", None, None
+    assumed = ["strict codecs: str.encode('utf-16le'/'utf-16be') is the UTF-16 encoding; bytes.decode('utf-8') raises UnicodeDecodeError or returns w with utf8(w) == input"]
+
+    def setup(self, E):
+        install_common(E)
+        install_codecs(E)
+        E.loop_invariants[(self.target, 0)] = WideLoop(self.variant, self.prefix)
+
+    def args(self, I):
+        val = M.mk_sigma_string(I, "val")
+        return {"self": mk_modifier(I, self.clsname), "args": [val], "val": val}
+
+    def post(self, I, inp, r):
+        ok = isinstance(r, SObj) and r.cls.name == "SigmaString" and "s" in r.fields
+        I.ctx.require(ok, "result is a SigmaString")
+        if ok:
+            pre = z3.Empty(M.parts_sort()) if self.prefix is None else z3.Unit(M.PartSort().PStr(z3.StringVal(self.prefix)))
+            I.ctx.require(ops.seq_term(I, r.fields["s"], M.PART) == z3.Concat(pre, mapw(self.variant, inp["val"].fields["s"].t)),
+                          "result parts == [BOM] + [utf8-decoded UTF-16 bytes of every text part, special parts unchanged]")
+
+    def raises(self, I, inp, exc):
+        I.ctx.require(exc_is(I, exc, "SigmaValueError"), f"rejecting (SigmaValueError) is the only alternative outcome (got {exc_name(exc)})", kind="SAFE")
+
+    def frame_ok(self, I, inp, obj, name):
+        return False      # the input value must not be modified
+
+
+@register
+class WideModify(_WideBase):
+    id = "C04.wide.modify"
+    target = "sigma.modifiers:SigmaWideModifier.modify"
+    variant, clsname = "le", "SigmaWideModifier"
+
+
+@register
+class UTF16BEModify(_WideBase):
+    id = "C04.utf16be.modify"
+    target = "sigma.modifiers:SigmaUTF16BEModifier.modify"
+    variant, clsname = "be", "SigmaUTF16BEModifier"
+
+
+@register
+class UTF16Modify(_WideBase):
+    id = "C04.utf16.modify"
+    target = "sigma.modifiers:SigmaUTF16Modifier.modify"
+    variant, prefix, clsname = "le", "﻿", "SigmaUTF16Modifier"
+
+
+# ----------------------------------------------------------------------------------------------- bounded stand-in
+@register
+class C04Bounded(Bounded):
+    """Native cross-check of the real modifiers (through SigmaDetectionItem.from_mapping) against Python's own codecs and
+    base64 for all payloads up to a length bound over a small alphabet, with random surrounding bytes.  Bounded - never
+    counted as proved; it is also the search that finds native failing inputs for abstract counter-models."""
+    id = "C04.bounded.modifier_chains"
+    props = ("C04",)
+
+    def run(self, tier, seed):
+        import itertools, random
+        from base64 import b64encode
+        from sigma.rule import SigmaDetectionItem
+        from sigma.types import SigmaString, SigmaExpansion
+        from sigma.exceptions import SigmaError
+        rnd = random.Random(seed)
+        alphabet = ["a", "Z", "ä", "€", "\n", "\\\\", "\\*", " ", "\U0001F600"]
+        maxlen = 3 if tier == "quick" else 4
+        enc = {"wide": lambda t: t.encode("utf-16le"), "utf16le": lambda t: t.encode("utf-16le"), "utf16be": lambda t: t.encode("utf-16be"),
+               "utf16": lambda t: b"\xff\xfe" + t.encode("utf-16le")}
+        n = nontriv = 0
+        samples = []
+
+        class _F(list):           # one recorded failure per (chain, kind of failure); the rest is only counted
+            seen = {}
+
+            def append(self, f):
+                key = (tuple(f["input"][0]), f["text"].split(":")[1][:12])
+                _F.seen[key] = _F.seen.get(key, 0) + 1
+                if _F.seen[key] == 1:
+                    list.append(self, f)
+        _F.seen = {}
+        failures = _F()
+
+        def lit(src):      # literal text denoted by rule source text over this alphabet
+            return src.replace("\\\\", "\x00").replace("\\*", "*").replace("\x00", "\\")
+
+        def vals(item):
+            out = []
+            for v in item.value:
+                out += list(v.values) if isinstance(v, SigmaExpansion) else [v]
+            return out
+
+        def text_bytes(v):       # bytes a produced value denotes (literal text, utf-8)
+            return M.native_text(v.s).encode("utf-8")
+        for ln in range(0, maxlen + 1):
+            for combo in itertools.product(alphabet, repeat=ln):
+                src = "".join(combo)
+                payload = lit(src)
+                for chain in (["base64"], ["base64offset"], ["wide"], ["utf16le"], ["utf16be"], ["utf16"], ["wide", "base64"], ["wide", "base64offset"],
+                              ["utf16be", "base64offset"], ["utf16", "base64"]):
+                    n += 1
+                    try:
+                        item = SigmaDetectionItem.from_mapping("f|" + "|".join(chain), src)
+                    except SigmaError:
+                        continue      # rejecting is an allowed outcome
+                    except Exception as e:
+                        failures.append({"text": f"{chain} on {src!r}: non-Sigma exception {type(e).__name__}: {e}", "input": [chain, src]})
+                        continue
+                    data = payload.encode("utf-8")
+                    if chain[0] in enc:
+                        try:
+                            data = enc[chain[0]](payload)
+                        except UnicodeEncodeError:
+                            continue
+                    got = vals(item)
+                    nontriv += 1
+                    if chain[-1] in enc:
+                        ok = len(got) == 1 and text_bytes(got[0]) == data
+                        if not ok:
+                            failures.append({"text": f"{chain} on {src!r}: value bytes {[text_bytes(g) for g in got]!r} != UTF-16 encoding {data!r}", "input": [chain, src]})
+                    elif chain[-1] == "base64":
+                        ok = len(got) == 1 and M.native_text(got[0].s) == b64encode(data).decode()
+                        if not ok:
+                            failures.append({"text": f"{chain} on {src!r}: {[M.native_text(g.s) for g in got]} != b64 {b64encode(data).decode()!r}", "input": [chain, src]})
+                    else:
+                        want = b64offset_oracle(data)
+                        g = [M.native_text(x.s) for x in got]
+                        if g != want:
+                            failures.append({"text": f"{chain} on {src!r}: base64offset {g} != payload-determined windows {want}", "input": [chain, src]})
+                        else:
+                            for pl in range(0, 6):
+                                for sl in (0, 1, 2, 5):
+                                    A = bytes(rnd.randrange(256) for _ in range(pl))
+                                    Bs = bytes(rnd.randrange(256) for _ in range(sl))
+                                    full = b64encode(A + data + Bs).decode()
+                                    k = pl % 3
+                                    at = 4 * ((pl - k) // 3) + (8 * k + 5) // 6
+                                    if full[at:at + len(g[k])] != g[k]:
+                                        failures.append({"text": f"{chain} on {src!r}: value {k} {g[k]!r} does not occur at its aligned position in b64 of prefix {pl}/suffix {sl}", "input": [chain, src]})
+                    if len(samples) < 5 and ln == 2:
+                        samples.append({"chain": chain, "source": src, "values": [M.native_text(x.s) for x in got]})
+        return {"evaluations": n, "distinct_nontrivial": nontriv, "failures": list(failures)[:40], "failure_counts": {str(k): v for k, v in _F.seen.items()}, "bound": f"payloads of <= {maxlen} symbols over {alphabet!r}, 10 modifier chains, prefixes 0..5 x suffixes (0,1,2,5) of random bytes",
+                "rule": "every (payload, chain) pair is distinct; non-trivial = not rejected by the library", "samples": samples, "exhaustive": True}
